@@ -362,10 +362,14 @@ func c14CLI(ctx *core.Ctx, res *core.Result, intn func(int) int, pt string, file
 	base, _ := os.MkdirTemp(ctx.Tmp, "c14")
 	defer os.RemoveAll(base)
 	os.WriteFile(filepath.Join(base, "p.patch"), []byte(pt), 0o644)
+	// a second patch whose rewrite is unparseable on one extra file (reformat error for it)
+	os.WriteFile(filepath.Join(base, "bad.patch"), []byte("@@\n@@\n-badType\n+1 + 2\n"), 0o644)
+	files = append(append([]string{}, files...), "package p\n\nvar vbad badType\n\nfunc h() { bump(2) }\n")
 	names := make([]string, len(files))
 	for i := range files {
 		names[i] = fmt.Sprintf("f%d.go", i)
 	}
+	names[len(files)-1] = "f3_rejected_rewrite.go" // sorts into the middle of the run
 	raceLog := filepath.Join(base, "clirace")
 	run := func(sub string, args []string, which []int) (map[int]string, *core.CLIResult) {
 		d := filepath.Join(base, sub)
@@ -373,7 +377,7 @@ func c14CLI(ctx *core.Ctx, res *core.Result, intn func(int) int, pt string, file
 		for _, i := range which {
 			os.WriteFile(filepath.Join(d, names[i]), []byte(files[i]), 0o644)
 		}
-		cr := ctx.RunCLI(core.CLIOpts{Dir: d, Bin: bin, Args: append([]string{"-p", "../p.patch", "--skip-generated"}, args...),
+		cr := ctx.RunCLI(core.CLIOpts{Dir: d, Bin: bin, Args: append([]string{"-p", "../p.patch", "-p", "../bad.patch", "--skip-generated"}, args...),
 			Env: []string{"GORACE=halt_on_error=0 log_path=" + raceLog}})
 		res.Ob("cli-runs", 1)
 		out := map[int]string{}
